@@ -1515,10 +1515,11 @@ func (in *inliner) hoistStmt(s ast.Stmt, file *ast.File, depth int) []ast.Stmt {
 	case *ast.ExprStmt:
 		h.walk(&x.X)
 	case *ast.AssignStmt:
-		if x.Tok != token.ASSIGN && x.Tok != token.DEFINE {
-			return nil
-		}
+		opAssign := x.Tok != token.ASSIGN && x.Tok != token.DEFINE // x op= y reads x as well
 		for _, l := range x.Lhs {
+			if _, isID := l.(*ast.Ident); isID && !opAssign {
+				continue // a plain variable is only written, after the right-hand side has been evaluated
+			}
 			if !h.pureReads(l) {
 				return nil
 			}
